@@ -12,7 +12,7 @@ var (
 		selNames: func(s int) string { return psTypes[s%len(psTypes)].name }}
 	tgtSplitters = &textTarget{name: "splitters", nsel: len(splitterNames), run: runSplitters, seeds: seedsSplitters, alphabet: alphaCollections,
 		selNames: func(s int) string { return splitterNames[s%len(splitterNames)] }}
-	tgtCase = &textTarget{name: "casedecoders", nsel: len(caseDecoders), run: runCaseDecoders, seeds: seedsCase, alphabet: alphaIdent,
+	tgtCase = &textTarget{name: "casedecoders", nsel: len(caseDecoders), run: runCaseDecoders, seeds: seedsCase, alphabet: alphaIdent, structured: identGen,
 		selNames: func(s int) string { return caseDecoders[s%len(caseDecoders)].name }}
 	tgtDuration = &textTarget{name: "parsingduration", nsel: 3, run: runParsingDuration, seeds: seedsDuration, alphabet: alphaJSON,
 		selNames: func(s int) string { return fmt.Sprintf("mode%d", s%3) }}
@@ -26,18 +26,44 @@ var (
 		selNames: func(s int) string { return decoderTypes[s%len(decoderTypes)].name }}
 	tgtCue = &textTarget{name: "decodecue", nsel: len(decoderTypes), run: cueTarget, seeds: mkSeeds(len(decoderTypes), append(append(append([]string{}, docsCue...), docsJSON...), cuePanicDocs()...)), alphabet: alphaCue, structured: docGen("cue"),
 		selNames: func(s int) string { return decoderTypes[s%len(decoderTypes)].name }}
-	tgtEnv = &textTarget{name: "envvalue", nsel: len(envLeaves) + 1, run: runEnvValue, seeds: mkSeeds(len(envLeaves)+1, seedsEnvValues), alphabet: alphaEnv,
+	tgtEnv = &textTarget{name: "envvalue", nsel: len(envLeaves) + 3, run: runEnvValue, alphabet: alphaEnv,
+		seeds:      append(mkSeeds(len(envLeaves)+1, seedsEnvValues), dynSeeds(len(envLeaves)+1, len(envLeaves)+2)...),
+		hotSels:    []int{len(envLeaves) + 1, len(envLeaves) + 2},
+		structured: sourceGen(nil, map[int]bool{len(envLeaves) + 1: true, len(envLeaves) + 2: true}, len(envLeaves)+3),
 		selNames: func(s int) string {
-			if s%(len(envLeaves)+1) == len(envLeaves) {
+			switch s % (len(envLeaves) + 3) {
+			case len(envLeaves):
 				return "all"
+			case len(envLeaves) + 1:
+				return "input-named field"
+			case len(envLeaves) + 2:
+				return "input-named dials tag"
 			}
-			return envLeaves[s%(len(envLeaves)+1)].Path
+			return envLeaves[s%(len(envLeaves)+3)].Path
 		}}
-	tgtFlag = &textTarget{name: "flagargs", nsel: 1, run: runFlagArgs, seeds: mkSeeds(1, seedsFlagArgs), alphabet: alphaFlag, structured: argsGen("flag"),
-		selNames: func(int) string { return "cfgFlag" }}
-	tgtPflag = &textTarget{name: "pflagargs", nsel: 1, run: runPflagArgs, seeds: mkSeeds(1, seedsPflagArgs), alphabet: alphaFlag, structured: argsGen("pflag"),
-		selNames: func(int) string { return "cfgFlag" }}
+	tgtFlag = &textTarget{name: "flagargs", nsel: 3, run: runFlagArgs, alphabet: alphaFlag,
+		seeds: append(mkSeeds(1, seedsFlagArgs), dynSeeds(1, 2)...), hotSels: []int{1, 2},
+		structured: sourceGen(argsGen("flag"), map[int]bool{1: true, 2: true}, 3),
+		selNames:   func(s int) string { return []string{"cfgFlag", "input-named field", "input-named dials tag"}[s%3] }}
+	tgtPflag = &textTarget{name: "pflagargs", nsel: 3, run: runPflagArgs, alphabet: alphaFlag,
+		seeds: append(mkSeeds(1, seedsPflagArgs), dynSeeds(1, 2)...), hotSels: []int{1, 2},
+		structured: sourceGen(argsGen("pflag"), map[int]bool{1: true, 2: true}, 3),
+		selNames:   func(s int) string { return []string{"cfgFlag", "input-named field", "input-named dials tag"}[s%3] }}
 )
+
+// dynSeeds are the identifier seeds of the input-named field / tag selectors.
+func dynSeeds(nameSel, tagSel int) []textSeed {
+	var out []textSeed
+	for i, id := range append(append([]string{}, initialismRunSeeds...), "JSONFilePath", "HTTPSPort", "UserUID", "Port2ID", "some_tag", "kebab-tag", "A", "x", "_", "ÀÉ") {
+		if i%2 == 0 || i >= len(initialismRunSeeds) {
+			out = append(out, textSeed{nameSel, id})
+		}
+		if i%2 == 1 || i >= len(initialismRunSeeds) {
+			out = append(out, textSeed{tagSel, id})
+		}
+	}
+	return out
+}
 
 // hostileStride thins the (selector x hostile constant) cross product of the
 // targets with many selectors; every constant still meets every selector class
@@ -72,9 +98,10 @@ func fuzzTarget(f *testing.F, tg *textTarget, hostileStride int, always ...textS
 		f.Add(uint8(s.sel), []byte(s.data))
 	}
 	f.Fuzz(func(t *testing.T, sel uint8, data []byte) {
-		if hangSeen.Load() {
-			t.Skip("a call hung earlier in this process; not piling up more hung goroutines")
+		if hungIn("C16.fuzz-" + tg.name) {
+			t.Skip("a call of this target hung earlier in this process (reported then); not piling up more hung goroutines")
 		}
+		currentCheck.Store("C16.fuzz-" + tg.name)
 		r := tg.run(int(sel)%tg.nsel, data)
 		if r.viol != nil {
 			if knownDefect(r.viol.key) {
